@@ -1,5 +1,5 @@
 (* C12 - PaletteContainer: property theorems only.  Model and specification: Model/C12.v (on top of the
-   BitStorage model Model/C11.v); proofs: Proofs/C12.v, Proofs/C12_wire.v, Proofs/C12_spec.v.
+   BitStorage model Model/C11.v); proofs: Proofs/C12.v, Proofs/C12_wire.v, Proofs/C12_spec.v, Proofs/C12_data.v, Proofs/C12_off.v.
    Inv c    = a container as New*PaletteContainer / Set / ReadFrom leave it: registry width g in 9..31
               (block states) or 4..31 (biomes); the data array is a well-formed BitStorage (C11) of the
               width the configuration table gives for the logical width, or has width 0; the palette
@@ -8,7 +8,7 @@
    pabs c   = the array of state ids the container denotes (data indices resolved through the palette).
    inreg cf v = 0 <= v < 2^(gbits cf). *)
 From Coq Require Import List NArith ZArith Bool Lia.
-From GoMC Require Import Base.Bytes Base.Dec Model.C05 Model.C11 Model.C12 Proofs.C11 Proofs.C12 Proofs.C12_wire Proofs.C12_spec.
+From GoMC Require Import Base.Bytes Base.Dec Model.C05 Model.C11 Model.C12 Proofs.C11 Proofs.C12 Proofs.C12_wire Proofs.C12_spec Proofs.C12_data Proofs.C12_off.
 Import ListNotations.
 Open Scope Z_scope.
 
@@ -80,16 +80,65 @@ Theorem C12_conformant : forall c rest fuel, Inv c -> (lenN (data (cdata c)) < 2
            (fst (pc_write c) ++ rest) = FOk (pabs c) rest.
 Proof. exact conformance. Qed.
 
-(* KNOWN FINDING C12-withdata-wide-indirect: save data of a block section with more than 256 distinct
-   states in the vanilla save layout (palette + 9..15-bit indices) denotes an array for the
-   specification, but NewStatesPaletteContainerWithData takes every width above 8 for direct ids and
-   panics on the data length (the library has no indirect palette wider than 8 bits) *)
-Theorem C12_with_data_wide_refuted :
-  let pat := map Z.of_nat (seq 0 300) in
-  let data := repeat 0%N 586 in
-  (exists a, spec_saved 9 4096 pat data = Some a /\ length a = 4096%nat) /\
-  pc_with_data (mkCfg KStates 15) 4096 data pat = RPanic pNew.
-Proof. exact with_data_wide_refuted. Qed.
+(* save data.  The save layout (Anvil block_states / biomes): a palette and, unless it has a single
+   entry, an index array of save_width bits per entry - ceil(log2 |palette|), for block states at
+   least 4 - in the packing of C11; spec_saved reads it independently of the code.  For EVERY such
+   palette/data pair (palette entries registry ids, every index within the palette) the constructor
+   returns a container that satisfies the invariant and denotes exactly that array - whichever
+   representation it chooses: single value, linear, hash, or (more than 256 block states / 8 biomes,
+   fix 6364be8) the indices resolved through the palette into direct ids.  width_recovered says that
+   calcBitsPerValue lands in the class of the save width; it holds for the section lengths of the
+   chunk format (C12_with_data_section) but not for every length (C11_infer_refuted) *)
+Theorem C12_with_data : forall cf n data pat a,
+  wfcfg cf -> 0 <= n -> pat <> [] -> Forall (inreg cf) pat -> zlen pat <= 2 ^ gbits cf ->
+  let w := save_width (ckind cf) (zlen pat) in
+  Z.of_nat (length data) = (if w =? 0 then 0 else size_of w n) ->
+  Forall (fun l => (l < 2^64)%N) data ->
+  spec_saved (Z.to_N w) (Z.to_nat n) pat data = Some a ->
+  width_recovered cf n w (zlen pat) ->
+  exists c, pc_with_data cf n data pat = ROk c /\ Inv c /\ ccfg c = cf /\ blen (cdata c) = n /\ pabs c = a.
+Proof. exact with_data. Qed.
+
+(* the same for the containers of a chunk section (4096 block states, 64 biomes), with no hypothesis
+   on the inference: every palette length up to 2^g, every width 0, 4..g / 0..g *)
+Theorem C12_with_data_section : forall cf data pat a,
+  wfcfg cf -> pat <> [] -> Forall (inreg cf) pat -> zlen pat <= 2 ^ gbits cf ->
+  let n := section_len (ckind cf) in
+  let w := save_width (ckind cf) (zlen pat) in
+  Z.of_nat (length data) = (if w =? 0 then 0 else size_of w n) ->
+  Forall (fun l => (l < 2^64)%N) data ->
+  spec_saved (Z.to_N w) (Z.to_nat n) pat data = Some a ->
+  exists c, pc_with_data cf n data pat = ROk c /\ Inv c /\ ccfg c = cf /\ blen (cdata c) = n /\ pabs c = a.
+Proof. exact with_data_section. Qed.
+
+(* ---------- outside the property's domain: what the code does ---------- *)
+
+(* Set with an index out of range (any 64-bit index, any 64-bit id): the array, the length and the
+   kind are unchanged; the call panics - except on a single-valued container (no data array) asked
+   for the value it already holds, which ignores the index and returns.  (The palette may have taken
+   the new id before the panic; if the id is a registry id the invariant still holds.) *)
+Theorem C12_set_bad_index : forall f c i v, Inv c -> ~ (0 <= i < blen (cdata c)) -> in_sw 64 v ->
+  let r := pc_set (S (S f)) c i v in
+  pabs (fst r) = pabs c /\ blen (cdata (fst r)) = blen (cdata c) /\ ccfg (fst r) = ccfg c /\
+  ((snd r = OUnit /\ vpl (cdata c) = 0) \/ exists w, snd r = OPanic w).
+Proof. exact set_bad_index. Qed.
+
+(* Set of an id outside the registry range on a direct container: value-out-of-bounds panic whatever
+   the index, container untouched.  (Indirect palettes do NOT check ids: see C12_ex_unchecked_id.) *)
+Theorem C12_set_bad_id_direct : forall f c i v, Inv c -> cpal c = PGlobal -> in_sw 64 v ->
+  ~ inreg (ccfg c) v -> pc_set (S f) c i v = (c, OPanic pVal).
+Proof. exact set_bad_id_direct. Qed.
+
+(* a ReadFrom that fails leaves a container of which only the configuration and the length are
+   guaranteed (left_behind: every other field arbitrary); the next successful read into it - of the
+   image of any container of that kind and length - yields a container that satisfies the invariant
+   and denotes the written array *)
+Theorem C12_failed_read_recoverable : forall before left c rest fuel,
+  left_behind before left -> Inv c -> ccfg c = ccfg before -> blen (cdata c) = blen (cdata before) ->
+  (lenN (data (cdata c)) < 2^31)%N -> (length (pal_export (cpal c)) <= fuel)%nat ->
+  exists c', run_flat (pc_read fuel left) (fst (pc_write c) ++ rest) = FOk (c', snd (pc_write c)) rest /\
+    Inv c' /\ left_behind before c' /\ pabs c' = pabs c.
+Proof. exact failed_read_recoverable. Qed.
 
 (* the reader is fragmentation-proof (feeds C09) *)
 Theorem C12_pal_read_robust : forall fuel p, robust (pal_read fuel p).
@@ -130,6 +179,36 @@ Example C12_ex_with_data :
              spec_saved 15 8 [] [0x0003000100002000; 0x1]%N).
 Proof. split; eexists; (split; [reflexivity|vm_compute; reflexivity]). Qed.
 
+(* a block section with 300 palette entries (9-bit indices, 586 longs): the hypotheses of
+   C12_with_data_section hold and the constructor resolves the indices (panicked before 6364be8) *)
+Definition ex_pat300 : list Z := map Z.of_nat (seq 0 300).
+Definition ex_data300 : list N := repeat 0x0000000000040201%N 586.
+Example C12_ex_wide :
+  save_width KStates (zlen ex_pat300) = 9 /\ Z.of_nat (length ex_data300) = size_of 9 4096 /\
+  (exists a, spec_saved 9 4096 ex_pat300 ex_data300 = Some a /\ firstn 8 a = [1; 1; 1; 0; 0; 0; 0; 1]) /\
+  (exists c, pc_with_data (mkCfg KStates 15) 4096 ex_data300 ex_pat300 = ROk c /\
+             map (pc_get c) [0; 1; 2; 3; 7; 4095] = [ORet 1; ORet 1; ORet 1; ORet 0; ORet 1; ORet 1] /\ cbits c = 9).
+Proof.
+  split; [vm_compute; reflexivity|]. split; [vm_compute; reflexivity|]. split.
+  - eexists. split; vm_compute; reflexivity.
+  - eexists. split; [vm_compute; reflexivity|]. split; vm_compute; reflexivity.
+Qed.
+
+(* ids are not checked against the registry by the indirect palettes: 1000 is stored in a biome
+   container (registry width 6) and read back; the container then no longer satisfies the invariant's
+   id clause, and the Set that needs the upgrade to direct ids panics (value out of bounds in the
+   copy) leaving the container as it was *)
+Definition ex_b0 : pc := match pc_new (mkCfg KBiomes 6) 64 0 with ROk c => c | RPanic _ => mkPC 0 (mkCfg KBiomes 6) PGlobal (mkBS [] 0%N 0 0 0) end.
+Definition ex_b8 : pc := fst (pc_run ex_b0 [PSet 0 1000; PSet 1 1; PSet 2 2; PSet 3 3; PSet 4 4; PSet 5 5; PSet 6 6]).
+Example C12_ex_unchecked_id :
+  ~ inreg (mkCfg KBiomes 6) 1000 /\ pc_get ex_b8 0 = ORet 1000 /\ pc_get ex_b8 6 = ORet 6 /\
+  pc_set set_fuel ex_b8 7 7 = (ex_b8, OPanic pVal) /\
+  snd (pc_set set_fuel ex_b8 (-1) 7) = OPanic pVal /\ snd (pc_set set_fuel ex_b8 64 6) = OPanic pIdx /\
+  pc_set set_fuel ex_b0 (-5) 0 = (ex_b0, OUnit).
+Proof.
+  split; [unfold inreg; cbn; lia|]. repeat split; vm_compute; reflexivity.
+Qed.
+
 Print Assumptions C12_new.
 Print Assumptions C12_refines.
 Print Assumptions C12_get.
@@ -139,5 +218,9 @@ Print Assumptions C12_copy_never_overflows.
 Print Assumptions C12_hash_is_linear.
 Print Assumptions C12_wire.
 Print Assumptions C12_conformant.
-Print Assumptions C12_with_data_wide_refuted.
+Print Assumptions C12_with_data.
+Print Assumptions C12_with_data_section.
+Print Assumptions C12_set_bad_index.
+Print Assumptions C12_set_bad_id_direct.
+Print Assumptions C12_failed_read_recoverable.
 Print Assumptions C12_pal_read_robust.
